@@ -87,7 +87,10 @@ fn c02_conc(rng: &mut Rng, name: &'static str) -> Prepared {
     p.pressure = *rng.pick(&[Pressure::Over, Pressure::Tight, Pressure::Fits]);
     p.mix = [25, 20, 12, 40, 0, 0, 5, 2];
     p.valueless_pct = 25;
-    prep(conc(rng, "C02", name, &p))
+    MULTI_GET_MAY_REPEAT_KEYS.with(|c| c.set(true));
+    let sc = conc(rng, "C02", name, &p);
+    MULTI_GET_MAY_REPEAT_KEYS.with(|c| c.set(false));
+    prep(sc)
 }
 
 // ---------------------------------------------------------------- C12 (passive, CONC)
